@@ -34,7 +34,7 @@ Lemma umul_ppmm_spec a b : 0 <= a < W -> 0 <= b < W ->
 Proof.
   intros Ha Hb. unfold umul_ppmm.
   assert (Hp : 0 <= a * b <= (W - 1) * (W - 1)) by nia.
-  revert Hp. generalize (a * b). intros p Hp. rewrite W_eq in *. lia.
+  revert Hp. generalize (a * b). intros p Hp. rewrite ?modW_eq, ?divW_eq in *; rewrite W_eq in *. lia.
 Qed.
 
 Lemma pack0_ok : pack_ok 0 mulpack0.
@@ -50,14 +50,14 @@ Proof.
     pose proof (add_ssaaaa_spec h l 0 d Hh Hl H0 Hd) as H. destruct (add_ssaaaa h l 0 d) as [h' l'].
     destruct H as (Hh' & Hl' & E'). cbn [fst snd].
     assert (Hp : 0 <= b * c <= (W - 1) * (W - 1)) by nia.
-    revert Hp E. generalize (b * c). intros p Hp E. rewrite W_eq in *.
+    revert Hp E. generalize (b * c). intros p Hp E. rewrite ?modW_eq, ?divW_eq in *; rewrite W_eq in *.
     repeat split; lia.
   - intros b c [dl dh] Hb Hc [Hdl Hdh]. cbn [wf val B fst snd] in *. unfold laddmul20. cbn [fst snd].
     pose proof (umul_ppmm_spec b c Hb Hc) as H. destruct (umul_ppmm b c) as [h l]. destruct H as (Hh & Hl & E).
     pose proof (add_ssaaaa_spec h l dh dl Hh Hl Hdh Hdl) as H. destruct (add_ssaaaa h l dh dl) as [h' l'].
     destruct H as (Hh' & Hl' & E'). cbn [fst snd].
     assert (Hp : 0 <= b * c <= (W - 1) * (W - 1)) by nia.
-    revert Hp E. generalize (b * c). intros p Hp E. rewrite W_eq in *.
+    revert Hp E. generalize (b * c). intros p Hp E. rewrite ?modW_eq, ?divW_eq in *; rewrite W_eq in *.
     repeat split; try lia.
     destruct (Z.ltb_spec h' dh); cbn [orb b2z]; [lia|].
     destruct (Z.eqb_spec h' dh); cbn [andb]; [|cbn [b2z]; lia].
